@@ -37,6 +37,9 @@ type Spec struct {
 	A       []*sh.BlockSpec `json:"fork_a"`
 	B       []*sh.BlockSpec `json:"fork_b"`
 	Edge    *EdgeSpec       `json:"edge,omitempty"` // replay of a "fork at a bloom-window edge" history (edge.go)
+	// Restart: node A is restarted (a fresh Blockchain over the same database, real lazy filter initialisation)
+	// right before fork A is reverted, so the revert is the first operation that touches its running event filter
+	Restart bool `json:"restart,omitempty"`
 }
 
 func cloneBlocks(l []*sh.BlockSpec) []*sh.BlockSpec {
@@ -53,7 +56,7 @@ func cloneBlocks(l []*sh.BlockSpec) []*sh.BlockSpec {
 }
 
 func (s *Spec) clone() *Spec {
-	return &Spec{Backend: s.Backend, P: cloneBlocks(s.P), A: cloneBlocks(s.A), B: cloneBlocks(s.B)}
+	return &Spec{Backend: s.Backend, P: cloneBlocks(s.P), A: cloneBlocks(s.A), B: cloneBlocks(s.B), Restart: s.Restart}
 }
 
 func blockLine(b *sh.BlockSpec) string {
@@ -95,7 +98,11 @@ func (s *Spec) String() string {
 		}
 		return "[" + strings.Join(p, " ; ") + "]"
 	}
-	return fmt.Sprintf("%s backend: prefix %s fork A %s reverted, fork B %s", s.Backend, part(s.P), part(s.A), part(s.B))
+	rs := ""
+	if s.Restart {
+		rs = " (node restarted before the reverts)"
+	}
+	return fmt.Sprintf("%s backend: prefix %s fork A %s reverted%s, fork B %s", s.Backend, part(s.P), part(s.A), rs, part(s.B))
 }
 
 // ---------- oracle ----------
@@ -228,7 +235,8 @@ func runSpec(ar *sh.Arena, or *hx.Oracle, sp *Spec, verbose bool) *result {
 	newState := sp.Backend == "new"
 	s1, s2 := ar.NewNode(newState), ar.NewNode(newState)
 	na, nb := ar.NewNode(newState), ar.NewNode(newState)
-	defer func() { s1.Close(); s2.Close(); na.Close(); nb.Close() }()
+	naArena := na
+	defer func() { s1.Close(); s2.Close(); naArena.Close(); nb.Close() }()
 
 	var all []*sh.Built // every block ever built: P, A, B
 	var ops []string    // NA's op sequence for the oracle
@@ -293,6 +301,9 @@ func runSpec(ar *sh.Arena, or *hx.Oracle, sp *Spec, verbose bool) *result {
 		dumpBefore, err := sh.DumpDB(na.DB)
 		hx.Must(err)
 		pos := len(sp.P) + k
+		if sp.Restart && k == len(sp.A)-1 {
+			na = na.Reopen()
+		}
 		rerr := na.BC.RevertHead()
 		ops = append(ops, "R")
 		res.reverts++
@@ -690,6 +701,10 @@ func genSpec(r *hx.RNG) *genOut {
 	height = nP
 	for i := 0; i < nB; i++ {
 		out.sp.B = append(out.sp.B, mk(6))
+	}
+	if r.Chance(30) {
+		out.sp.Restart = true
+		out.labels = append(out.labels, "shape:restart-before-revert")
 	}
 	out.labels = append(out.labels, fmt.Sprintf("prefix-%d", nP), fmt.Sprintf("fork-a-%d", nA), fmt.Sprintf("fork-b-%d", nB))
 	if nP == 0 {
